@@ -5,7 +5,8 @@ TIER=${1:-quick}
 for d in /verif/seeded/*/; do
   id=$(basename $d)
   [ -f $d/patch.diff ] || continue
-  out=$(/verif/tools/mutcheck.sh $id $d/patch.diff $TIER 2>&1); code=$?
+  chk=${id:0:3}   # second-round seeds are kept as <ID>b
+  out=$(/verif/tools/mutcheck.sh $chk $d/patch.diff $TIER 2>&1); code=$?
   n=$(echo "$out" | grep -c '^VIOLATION')
   echo "$id: exit=$code violations=$n $(echo "$out" | grep '^VIOLATION' | head -1 | sed 's#.*replays/[^/]*/##')"
 done
